@@ -208,6 +208,57 @@ fn classify_index(c: &Crate, module: &[String], i: &ItemImpl) -> (String, String
     (lean, key, idx_text, facts)
 }
 
+/// `unsafe { match &self.__inner { None => None, Some(v) => Some(Write::assume(v)) } }` or the
+/// `Ok` / `Err` analogue: every arm re-wraps its payload with `Write::assume` under the same
+/// constructor; arm order and binder names are free.
+fn as_write_body_ok(b: &Block) -> bool {
+    let inner: &Expr = match b.stmts.as_slice() {
+        [Stmt::Expr(Expr::Unsafe(u), None)] => match u.block.stmts.as_slice() {
+            [Stmt::Expr(e, None)] => e,
+            _ => return false,
+        },
+        [Stmt::Expr(e, None)] => e,
+        _ => return false,
+    };
+    let Expr::Match(m) = inner else { return false };
+    if toks(&*m.expr).replace(' ', "") != "&self.__inner" {
+        return false;
+    }
+    let mut ctors = vec![];
+    for arm in &m.arms {
+        if arm.guard.is_some() {
+            return false;
+        }
+        let body = toks(&*arm.body).replace(' ', "");
+        match &arm.pat {
+            Pat::Ident(pi) if pi.ident == "None" && pi.subpat.is_none() => {
+                if body != "None" {
+                    return false;
+                }
+                ctors.push("None".to_string());
+            }
+            Pat::Path(pp) if last_seg(&pp.path) == "None" => {
+                if body != "None" {
+                    return false;
+                }
+                ctors.push("None".to_string());
+            }
+            Pat::TupleStruct(ts) if ts.elems.len() == 1 => {
+                let c = last_seg(&ts.path);
+                let Pat::Ident(pi) = &ts.elems[0] else { return false };
+                let x = pi.ident.to_string();
+                if !["Some", "Ok", "Err"].contains(&c.as_str()) || body != format!("{c}(Write::assume({x}))") {
+                    return false;
+                }
+                ctors.push(c);
+            }
+            _ => return false,
+        }
+    }
+    ctors.sort();
+    ctors == ["None", "Some"] || ctors == ["Err", "Ok"]
+}
+
 /// Token text of a block with all whitespace and trailing commas removed.
 fn canon_body(b: &Block) -> String {
     toks(b).replace(' ', "").replace(",}", "}")
@@ -326,6 +377,26 @@ fn recv_kind(sig: &Signature, on_gc: bool) -> &'static str {
     }
 }
 
+/// Names of the metavariables of a matcher `$a:f1, $b:f2, …` whose fragment specifiers are exactly
+/// `frags` (the names themselves are free, but must be distinct).
+pub fn metavars(matcher: &proc_macro2::TokenStream, frags: &[&str]) -> Option<Vec<String>> {
+    let t = toks(matcher).replace(' ', "");
+    let parts: Vec<&str> = t.split(',').filter(|x| !x.is_empty()).collect();
+    if parts.len() != frags.len() {
+        return None;
+    }
+    let mut names = vec![];
+    for (p, f) in parts.iter().zip(frags) {
+        let p = p.strip_prefix('$')?;
+        let (n, fr) = p.split_once(':')?;
+        if fr != *f || n.is_empty() || !n.chars().all(|c| c.is_alphanumeric() || c == '_') || names.contains(&n.to_string()) {
+            return None;
+        }
+        names.push(n.to_string());
+    }
+    Some(names)
+}
+
 /// Check the `__field!` macro: one rule whose expansion is a pure pattern destructuring.
 fn field_macro_shape(raw: &Raw) -> String {
     let Some((_, _, body)) = raw.macro_rules("__field") else {
@@ -339,16 +410,16 @@ fn field_macro_shape(raw: &Raw) -> String {
     if groups.len() != 2 {
         return format!(".other {}", lean_str(&format!("expected exactly one rule, found {} groups", groups.len())));
     }
-    let matcher = toks(&groups[0].stream());
-    if matcher != "$ value : expr , $ type : path , $ field : ident" {
-        return format!(".other {}", lean_str(&format!("unexpected matcher: {matcher}")));
-    }
-    // make the RHS parseable: $crate -> crate, $x -> __x
+    // matcher: `$A:expr, $B:path, $C:ident` — the metavariable names are free
+    let Some(mv) = metavars(&groups[0].stream(), &["expr", "path", "ident"]) else {
+        return format!(".other {}", lean_str(&format!("unexpected matcher: {}", toks(&groups[0].stream()))));
+    };
+    // make the RHS parseable: $crate -> crate, metavariables -> fixed names (by position)
     let rhs = toks(&groups[1].stream())
         .replace("$ crate", "crate")
-        .replace("$ value", "__value")
-        .replace("$ type", "__Type")
-        .replace("$ field", "__field");
+        .replace(&format!("$ {}", mv[0]), "__value")
+        .replace(&format!("$ {}", mv[1]), "__Type")
+        .replace(&format!("$ {}", mv[2]), "__field");
     let expr: Expr = match syn::parse_str(&rhs) {
         Ok(e) => e,
         Err(e) => return format!(".other {}", lean_str(&format!("rhs does not parse as an expression: {e}"))),
@@ -627,10 +698,7 @@ pub fn extract(c: &Crate, items: &Items, raw: &Raw) -> Table {
                 let expect: Option<&[&str]> = match name.as_str() {
                     "unlock" => Some(&["{unsafe{self.__inner.unlock_unchecked()}}"]),
                     "as_deref" => Some(&["{unsafe{Write::assume(&*self)}}"]),
-                    "as_write" => Some(&[
-                        "{unsafe{match&self.__inner{None=>None,Some(v)=>Some(Write::assume(v))}}}",
-                        "{unsafe{match&self.__inner{Ok(v)=>Ok(Write::assume(v)),Err(e)=>Err(Write::assume(e))}}}",
-                    ]),
+                    "as_write" => None, // judged structurally below (arm order / binder names are free)
                     "deref" => Some(&["{&self.__inner}"]),
                     "deref_mut" => Some(&["{&mutself.__inner}"]),
                     _ => None,
@@ -639,6 +707,9 @@ pub fn extract(c: &Crate, items: &Items, raw: &Raw) -> Table {
                     if !ex.contains(&body.as_str()) {
                         t.unclassified.push(format!("Write::{name} has an unexpected body: {}", toks(&f.block)));
                     }
+                }
+                if name == "as_write" && !as_write_body_ok(&f.block) {
+                    t.unclassified.push(format!("Write::as_write has an unexpected body: {}", toks(&f.block)));
                 }
                 match name.as_str() {
                     "unlock" => {}
@@ -804,7 +875,16 @@ pub fn extract(c: &Crate, items: &Items, raw: &Raw) -> Table {
         let b = body.replace(' ', "");
         if name == "__unlock" {
             let b = b.trim_end_matches(';');
-            if !b.ends_with("=>{$crate::barrier::field!($value,$type,$field).unlock()}") {
+            // `($a:expr, $b:path, $c:ident) => { $crate::barrier::field!($a, $b, $c).unlock() }`, names free
+            let ok = (|| {
+                let (m, rhs) = b.split_once("=>")?;
+                let m = m.strip_prefix('(')?.strip_suffix(')')?;
+                let ts: proc_macro2::TokenStream = m.parse().ok()?;
+                let mv = metavars(&ts, &["expr", "path", "ident"])?;
+                Some(rhs == format!("{{$crate::barrier::field!(${},${},${}).unlock()}}", mv[0], mv[1], mv[2]))
+            })()
+            .unwrap_or(false);
+            if !ok {
                 t.unclassified.push("macro __unlock! is not `field!(…).unlock()`".into());
             }
         } else if name != "__field" && (b.contains("Write") || b.contains("unlock_unchecked")) {
